@@ -247,7 +247,10 @@ Definition parse_frame_gen (lenfmt : pfmt) (b : bytes) : res (option msg) * byte
           | (Ok body, rest') =>
               let recvbuf := hdr ++ body in
               let payload := py_slice hdr_body_lo (hdr_body_lo + msglen) recvbuf in
-              if negb (bytes_eqb checksum (firstn (Z.to_nat hdr_ck_len_read) (H payload))) then (Err ValueError, rest')
+              if match hdr_ck_check with
+                 | Some k => negb (bytes_eqb checksum (firstn (Z.to_nat k) (H payload)))
+                 | None => false        (* no checksum comparison in the source *)
+                 end then (Err ValueError, rest')
               else match lookup command messagemap with
                    | Some cls => (match payload_dec cls payload with Ok m => Ok (Some m) | Err e => Err e end, rest')
                    | None => (Ok None, rest')
